@@ -251,6 +251,8 @@ class Pipeline(object):
             self._state = PipelineState.stopping
             self._producer.stop()
             self._kill_workers()
+            # Wake up the processing loop if it is paused (concurrency 0)
+            self._unpaused_event.set()
 
     @asyncio.coroutine
     def _run_producer_wrapper(self):
